@@ -250,6 +250,16 @@ Inv_Index ==
 Inv_HeaderBox ==
     AtCommit => LET r == StrictShp(shp.bytes) IN r.ok /\ HeaderBoxOK(hType, written, r.box)
 
+\* C01 across histories: at every commit point the reader model, with and without the index,
+\* returns exactly the shapes accepted so far (up to the read-back relation)
+Inv_ReaderSeesWritten ==
+    AtCommit =>
+      LET r0 == ReadFile(shp.bytes, FALSE, << >>)
+          r1 == ReadFile(shp.bytes, TRUE, shx.bytes)
+          Same(r) == /\ r.openErr = "" /\ r.err = "" /\ Len(r.items) = Len(written)
+                     /\ \A i \in 1..Len(written) : ReadBackRel(written[i], r.items[i].shape, FALSE)
+      IN  Same(r0) /\ (hasShx => Same(r1))
+
 \* C10: one type per writer
 Inv_OneType == \A i \in 1..Len(written) : written[i].t = hType
 
